@@ -21,59 +21,6 @@ let fmt_pairs l =
     | x :: t -> x :: dedup t
     | [] -> [] in
   "[" ^ String.concat "," (List.map (fun (a, b) -> Printf.sprintf "%d:%d" a b) (dedup l)) ^ "]"
-let b2i b = if b then 1 else 0
-let err_name = function EDivZero -> "divzero" | ELabel -> "label" | EBounds -> "bounds" | EOther -> "other"
-let fmt_exec (e : execution) =
-  Printf.sprintf "rc=%d reg=%d val=%d mc=%d mcs=%s npc=%d pcc=%d ret=%d"
-    (b2i e.registerChange) (int_of_z e.register) (int_of_z e.registerValue) (b2i e.memoryChange)
-    (fmt_pairs e.memoryChanges) (int_of_z e.nextPc) (b2i e.pcChange) (b2i e.return)
-let fmt_outcome = function
-  | Ok e -> "R=ok " ^ fmt_exec e
-  | Err c -> "R=err:" ^ err_name c
-  | Panic -> "R=panic"
-let regfun (regs : (z * z) list) : z -> z =
-  let a = Array.make 64 Z0 in
-  List.iter (fun (r, v) -> a.(int_of_z r) <- v) regs;
-  fun r -> let i = int_of_z r in if i >= 0 && i < 64 then a.(i) else Z0
-let labfun (labs : (z * z) list) : z -> z option =
-  fun l -> List.assoc_opt l labs
-let sinstr_of_tokens (toks : string list) : sinstr =
-  match toks with
-  | [] -> failwith "empty instruction"
-  | name :: args ->
-    let a = Array.of_list (List.map zi args) in
-    let g i = a.(i) in
-    (match name with
-     | "SAdd" -> SAdd (g 0, g 1, g 2) | "SAddi" -> SAddi (g 0, g 1, g 2)
-     | "SAnd" -> SAnd (g 0, g 1, g 2) | "SAndi" -> SAndi (g 0, g 1, g 2)
-     | "SAuipc" -> SAuipc (g 0, g 1)
-     | "SBeq" -> SBeq (g 0, g 1, g 2) | "SBeqz" -> SBeqz (g 0, g 1)
-     | "SBge" -> SBge (g 0, g 1, g 2) | "SBgeu" -> SBgeu (g 0, g 1, g 2)
-     | "SBle" -> SBle (g 0, g 1, g 2) | "SBlt" -> SBlt (g 0, g 1, g 2) | "SBltu" -> SBltu (g 0, g 1, g 2)
-     | "SBne" -> SBne (g 0, g 1, g 2) | "SBnez" -> SBnez (g 0, g 1)
-     | "SDiv" -> SDiv (g 0, g 1, g 2)
-     | "SJ" -> SJ (g 0) | "SJal" -> SJal (g 0, g 1) | "SJalr" -> SJalr (g 0, g 1, g 2)
-     | "SLui" -> SLui (g 0, g 1)
-     | "SLb" -> SLb (g 0, g 1, g 2) | "SLh" -> SLh (g 0, g 1, g 2)
-     | "SLi" -> SLi (g 0, g 1)
-     | "SLw" -> SLw (g 0, g 1, g 2)
-     | "SNop" -> SNop
-     | "SMul" -> SMul (g 0, g 1, g 2)
-     | "SMv" -> SMv (g 0, g 1)
-     | "SOr" -> SOr (g 0, g 1, g 2) | "SOri" -> SOri (g 0, g 1, g 2)
-     | "SRem" -> SRem (g 0, g 1, g 2)
-     | "SRet" -> SRet
-     | "SSb" -> SSb (g 0, g 1, g 2) | "SSh" -> SSh (g 0, g 1, g 2)
-     | "SSll" -> SSll (g 0, g 1, g 2) | "SSlli" -> SSlli (g 0, g 1, g 2)
-     | "SSlt" -> SSlt (g 0, g 1, g 2) | "SSltu" -> SSltu (g 0, g 1, g 2) | "SSlti" -> SSlti (g 0, g 1, g 2)
-     | "SSra" -> SSra (g 0, g 1, g 2) | "SSrai" -> SSrai (g 0, g 1, g 2)
-     | "SSrl" -> SSrl (g 0, g 1, g 2) | "SSrli" -> SSrli (g 0, g 1, g 2)
-     | "SSub" -> SSub (g 0, g 1, g 2)
-     | "SSw" -> SSw (g 0, g 1, g 2)
-     | "SXor" -> SXor (g 0, g 1, g 2) | "SXori" -> SXori (g 0, g 1, g 2)
-     | _ -> failwith ("unknown instruction " ^ name))
-let sinstr_of_string s =
-  sinstr_of_tokens (List.filter (fun t -> t <> "") (String.split_on_char ' ' (String.trim s)))
 let fields line = Array.of_list (String.split_on_char '\t' line)
 let iter_lines file start f =
   let ic = open_in file in
